@@ -10,25 +10,30 @@ META = {
             "(load/CAS of _block_table, load/CAS of the tagged retire head, clock reads), for every client program of "
             "ensure/reserve/operator[]/size/snapshot/snapshot[]/for_each(fill_n,copy_n)/gc/time-passes, every number of "
             "threads, every block size 2^k and every schedule: every published table extends the previous one (an index "
-            "never changes its (block, offset)), all askers of an index get the same element, every block is constructed "
-            "exactly once before it is visible and destroyed exactly once (by the loser that created it or by the "
-            "destructor), every table is freed exactly once, the current table is never freed, and a table is freed only "
-            "more than 64 s after the growth that superseded it (16-bit stamp wrap included) PROVIDED no retire pushes a "
-            "stale stamp; without that proviso the statement is REFUTED in the model and the witness replays on the real "
-            "code (finding cooling-stale-stamp).  get_timestamp/make_head/expire/get_current_timestamp, the index "
-            "arithmetic, the copy/create/delete ranges of the slow path and the memory orders are regenerated from "
-            "vector.hpp on every run.  Tie: the real class runs under the deterministic scheduler with virtual time; "
-            "operator new/delete replacement + a counting element type observe every table/block allocation and free and "
-            "every constructor/destructor; each outcome of a small program must be one the extracted model admits "
-            "(exhaustive exploration of all schedules of the model).",
-    "note": "c04_cooling is proved as c04_cooling_partial under `stale s = false` (no retire CAS succeeded against a head "
-            "re-read in a later 64 s unit than its clock read); c04_cooling_refuted shows the unconditional statement "
-            "false (DESIGN F4, reproduced on /repo: table freed 0 s after being superseded).  Not modelled: allocator "
-            "address reuse (pointer ABA on _block_table / _head), element payload, weak-memory reorderings (memory orders "
-            "are checked against the regenerated site tables only), a thread descheduled for more than one cooling period "
-            "inside a single vector call (the time-based design accepts that).  Trusted: Coq kernel; translator; "
-            "extraction + OCaml explorer; macro shim + dsched (sequentially consistent interleavings, virtual clock); "
-            "the driver's operator new/delete replacement and private-member sampling (-fno-access-control).",
+            "never changes its (block, offset)); all askers of an index get the same element, now or later, through the "
+            "vector or any snapshot; every block is constructed exactly once; while the vector is alive no block is "
+            "destroyed twice, no visible block is destroyed, and every undestroyed block is published or owned by exactly "
+            "one thread inside the slow path; when the vector dies every block has been destroyed exactly once (loser "
+            "path or destructor) and every heap table deleted exactly once; the installed table is never freed; a table is "
+            "freed, and a snapshot becomes unusable, only more than 64 s after the growth that superseded it / after the "
+            "snapshot was taken, for every clock history incl. gc() and 16-bit stamp wrap - unconditionally since fix "
+            "8cef5d9 (retire re-reads the clock in every round of its push loop: theorem c04_no_stale_stamp; the former "
+            "finding F4 now is a regression test: mutant revert_retire_stamp_fix).  get_timestamp/make_head/expire/"
+            "get_current_timestamp, the loop-body stamp refresh, the index arithmetic, the copy/create/delete ranges of the "
+            "slow path, the constructor/destructor loops and the memory orders are regenerated from vector.hpp on every "
+            "run.  Tie: the real class runs under the deterministic scheduler with virtual time; operator new/delete "
+            "replacement + a counting element type observe every table/block allocation and free and every constructor/"
+            "destructor; each outcome of a small program must be one the extracted model admits (exhaustive exploration of "
+            "all schedules of the model).",
+    "note": "All C04 theorems are at full strength (no _partial/_refuted).  Residual assumptions: (1) the allocator never "
+            "returns an address that a stalled thread still holds (no pointer ABA on _block_table / _head: a head word "
+            "equal to the loaded one designates the same node chain); (2) sequentially consistent interleavings (memory "
+            "orders are checked against the regenerated site tables only); (3) a thread that holds a table pointer for "
+            "more than 64 s (stalled inside one call, or a snapshot older than 64 s) reads freed memory - the documented "
+            "contract of the time-based design, delimited exactly by c04_snapshot_usable.  A stall between the clock read "
+            "and the CAS within one round of retire's loop is harmless (proved).  Element payload is not modelled.  "
+            "Trusted: Coq kernel; translator; extraction + OCaml explorer; macro shim + dsched (virtual clock); the "
+            "driver's operator new/delete replacement and private-member sampling (-fno-access-control).",
 }
 
 T0 = 1000000          # tv_sec of the virtual clock at the start of a run (dsched), = 15625 * 64
